@@ -9,3 +9,6 @@ func RecoveredPanic(err error) {}
 
 // At marks a named yield point.
 func At(point string) {}
+
+// AtHV marks a named yield point that belongs to a (height, view) pair.
+func AtHV(point string, height, view uint64) {}
